@@ -131,7 +131,7 @@ def _b_isascii(self):
 
 
 def _not(x):
-    return (not x) if isinstance(x, bool) else (x == False)  # noqa: E712
+    return x == False  # noqa: E712  (no type test: isinstance() is patched under CrossHair)
 
 
 def _b_isupper(self):
@@ -360,6 +360,43 @@ def _s_islower(self):
 
 
 # --------------------------------------------------------------------------------------
+# str.encode() to UTF-8 (strict): CrossHair's codec does not reject surrogate code points.
+
+_orig_str_encode = LazyIntSymbolicStr.encode
+
+
+def utf8_pts(pts):
+    """UTF-8 bytes of code points known not to be surrogates (forks on the length class)"""
+    out = []
+    for cp in pts:
+        if cp < 0x80:
+            out.append(cp)
+        elif cp < 0x800:
+            out += [0xC0 + cp // 64, 0x80 + cp % 64]
+        elif cp < 0x10000:
+            out += [0xE0 + cp // 4096, 0x80 + (cp // 64) % 64, 0x80 + cp % 64]
+        else:
+            out += [0xF0 + cp // 262144, 0x80 + (cp // 4096) % 64, 0x80 + (cp // 64) % 64, 0x80 + cp % 64]
+    return out
+
+
+def _s_encode(self, encoding="utf-8", errors="strict"):
+    enc = realize(encoding)
+    err = realize(errors)
+    norm = enc.lower().replace("_", "-") if isinstance(enc, str) else enc
+    if norm in ("utf-8", "utf8") and err == "strict":
+        pts = list(self._codepoints)
+        if len(pts) <= 64:
+            if bool(_any(((0xD800 <= c) & (c <= 0xDFFF)) for c in pts)):
+                with NoTracing():
+                    return realize(self).encode(enc, err)  # raises UnicodeEncodeError
+            out = utf8_pts(pts)
+            with NoTracing():
+                return SymbolicBytes(out)
+    return _orig_str_encode(self, encoding, errors)
+
+
+# --------------------------------------------------------------------------------------
 # int(): bytes / str with base 10 or 16, digits only (anything else -> real int())
 
 _orig_int = None
@@ -430,6 +467,27 @@ def _int_xor(self, other):
 
 def _int_rxor(self, other):
     return _sym_xor(other, self)
+
+
+# --------------------------------------------------------------------------------------
+# bytes(iterable of ints): CrossHair builds a symbolic bytes object without the range check
+# CPython performs ("bytes must be in range(0, 256)").
+
+_orig_bytes_ctor = None
+
+
+def _bytes_ctor(*a):
+    ret = _orig_bytes_ctor(*a)
+    check = False
+    with NoTracing():
+        if len(a) == 1 and isinstance(ret, SymbolicBytes) and not isinstance(a[0], BytesLike):
+            check = True
+            pts = list(ret.inner) if isinstance(ret.inner, (list, tuple)) else None
+    if check and pts is not None:
+        bad = _any(((x < 0) | (x > 255)) for x in pts if not (type(x) is int and 0 <= x <= 255))
+        if bool(bad):
+            raise ValueError("bytes must be in range(0, 256)")
+    return ret
 
 
 # --------------------------------------------------------------------------------------
@@ -626,7 +684,11 @@ def install() -> None:
     BytesLike.join = _b_join
     SymbolicBytes.decode = _b_decode
     LazyIntSymbolicStr.isupper = _s_isupper
+    LazyIntSymbolicStr.encode = _s_encode
     LazyIntSymbolicStr.islower = _s_islower
+    global _orig_bytes_ctor
+    _orig_bytes_ctor = regs[bytes]
+    regs[bytes] = _bytes_ctor
     _orig_int = regs[int]
     regs[int] = _int
     SymbolicInt.__xor__ = _int_xor
